@@ -18,6 +18,7 @@ import copy
 import json
 import os
 import random
+import shutil
 from concurrent.futures import ThreadPoolExecutor
 
 from ..common import pmap, MachineryError
@@ -135,15 +136,15 @@ MUTANTS = [
 # worker jobs (module level: run in forked processes)
 # ------------------------------------------------------------------------------------------------------------
 def _run_job(job):
-    """job = (cfg, events) -> ("ok", steps, rtlil_len) | ("exc", where, text)"""
+    """job = (cfg, events, elaborate?) -> ("ok", steps, rtlil_len) | ("exc", where, text)"""
     from .. import mem_drive
-    cfg, events = job
+    cfg, events, elab = job
     try:
         steps = mem_drive.run(cfg, events)
     except Exception as e:                      # "all [configurations] will simulate correctly"
         return ("exc", "simulate", "%s: %s" % (type(e).__name__, e))
     try:
-        n = mem_drive.elaborate(cfg)
+        n = mem_drive.elaborate(cfg) if elab else 0
     except Exception as e:
         return ("exc", "rtlil.convert", "%s: %s" % (type(e).__name__, e))
     return ("ok", steps, n)
@@ -155,7 +156,7 @@ def _random_job(job):
     rng = random.Random(seed)
     cfg = mem_drive.random_cfg(rng, max_depth=max_depth)
     events = mem_drive.random_events(rng, cfg, n_events)
-    return (cfg, events) + _run_job((cfg, events))
+    return (cfg, events) + _run_job((cfg, events, True))
 
 
 def _walk_events(cfg, labels, rng):
@@ -272,12 +273,12 @@ def run(ctx):
                    "walk_steps": sum(len(w) for _, w in walks)})
         for wi, (_, w) in enumerate(walks):
             events = _walk_events(e["cfg"], [lab for lab, _ in w], wrng)
-            run_jobs.append((e["cfg"], events))
+            run_jobs.append((e["cfg"], events, wi == 0))      # rtlil.convert once per configuration
             metas.append({"config": md.cfg_name(e["cfg"]), "driver": "tour", "model": e["name"], "walk": wi})
         os.unlink(dot)
     if not run_jobs:
         raise MachineryError("no tour walks generated")
-    for job, m, res in zip(run_jobs, list(metas), pmap(_run_job, run_jobs, chunksize=4)):
+    for job, m, res in zip(run_jobs, list(metas), pmap(_run_job, run_jobs, chunksize=16)):
         if res[0] == "exc":
             _exception(ctx, job[0], res[1], res[2], m, job[1])
             metas.remove(m)
@@ -300,12 +301,14 @@ def run(ctx):
         metas.append(m)
 
     totals = [0] * len(STAT_NAMES)
-    verdicts = tracecheck.validate(ctx, "AmMemTrace", traces, "memory", batch_size=400 if th else 4000)
+    # tour walks are short, random runs long: batch so that one TLC run judges roughly 150 000 steps
+    verdicts = tracecheck.validate(ctx, "AmMemTrace", traces[:n_tour], "tours", batch_size=15000)
+    verdicts += tracecheck.validate(ctx, "AmMemTrace", traces[n_tour:], "random", batch_size=500)
     _judge(ctx, verdicts, metas, traces, totals)
     ctx.cov["exercised"] = dict(zip(STAT_NAMES, totals))
     ctx.cov["tour_traces"] = n_tour
     ctx.cov["random_configurations_distinct_port_structures"] = len(seen_cfg)
-    ctx.cov["elaborated_with_rtlil_convert"] = len(traces)
+    ctx.cov["elaborated_with_rtlil_convert"] = len(entries) + len(traces) - n_tour
     if not ctx.violations:
         for i in (0, 1, 2, 3, 4, 5, 7, 8):
             if totals[i] == 0:
@@ -315,12 +318,17 @@ def run(ctx):
     ctx.sample({"config": metas[-1]["config"], "driver": "random", "first_steps": traces[-1]["steps"][:5]})
 
     # ---------------- binding demonstration: corrupted traces must be rejected ------------------------------
+    # (taken from configurations in which every bit is specified, so that each corruption is certainly illegal)
+    def specified(c):
+        return (c["w"] > 0 and c["depth"] == 1 << c["aw"] and len(c["wp"]) <= 1 and
+                all(p["dom"] in ("comb", c["wp"][0]["dom"]) for p in c["rp"] if c["wp"]))
     bad = []
     for t, v in zip(traces, verdicts):
-        if v[0] != "ACC" or t["cfg"]["w"] == 0 or len(t["steps"]) < 7:
+        c = t["cfg"]
+        if v[0] != "ACC" or not specified(c) or len(t["steps"]) < 7:
             continue
-        sync = [k for k, p in enumerate(t["cfg"]["rp"]) if p["dom"] != "comb"]
-        if len(bad) == 0 and t["cfg"]["depth"] > 0:
+        sync = [k for k, p in enumerate(c["rp"]) if p["dom"] != "comb"]
+        if len(bad) == 0:
             b = copy.deepcopy(t)
             b["steps"][4][9][0] ^= 1                # storage read back differently
             bad.append(b)
@@ -330,9 +338,13 @@ def run(ctx):
                 s[8][sync[0]] = b["steps"][0][8][sync[0]]
             bad.append(b)
         elif len(bad) == 2 and sync:
-            b = copy.deepcopy(t)
-            b["steps"][5][8][sync[0]] ^= 1          # one wrong bit in one captured word
-            bad.append(b)
+            k = sync[0]
+            bit = 1 if c["rp"][k]["dom"] == "A" else 2
+            caps = [n for n, s in enumerate(t["steps"]) if s[0] & bit and s[2][k] == 1]
+            if caps:
+                b = copy.deepcopy(t)
+                b["steps"][caps[-1]][8][k] ^= 1     # one wrong bit in one captured word
+                bad.append(b)
         if len(bad) == 3:
             break
     if len(bad) < 3:
@@ -361,12 +373,13 @@ def replay(ctx, rep):
     from .. import mem_drive as md
     r = rep["replay"]
     cfg, events = r["cfg"], r["events"]
-    res = _run_job((cfg, events))
+    res = _run_job((cfg, events, True))
     if res[0] == "exc":
         print("replay: %s raised %s" % (res[1], res[2]))
         print("VIOLATION property=C11 replay=(same)")
         return 1
     vs = tracecheck.validate(ctx, "AmMemTrace", [{"cfg": cfg, "steps": res[1]}], "replay")
+    shutil.rmtree(ctx.tmp, ignore_errors=True)
     print("replay verdict:", vs[0])
     if vs[0][0] == "REJ":
         print("VIOLATION property=C11 replay=(same)")
